@@ -1,5 +1,6 @@
 CONSTANT W = 2
 CONSTANT MODE = "sign"
+CONSTANT RNG = 10
 SPECIFICATION Spec
 INVARIANT MulCorrect
 INVARIANT SignCorrect
